@@ -16,7 +16,7 @@ EXPLANATION = ("oracle: for exact intervals the Spec instants of the points are 
 
 
 def generate(rng, tier):
-    n = 2500 if tier == "quick" else 60000
+    n = 8000 if tier == "quick" else 100000
     cases = []
     for i in range(n):
         md = MODES[i % 4]
